@@ -186,7 +186,31 @@ def run(ctx):
                '' if ok else 'the constant condition produced for `not in` evaluates to %s, for `in` to %s: they are not each other\'s negation, so `[] not in arr` and `[] in arr` '
                'select the same rows' % (sorted(tvals), sorted(fvals)), node=node)
     ctx.floor('C29-NEGCONST', nneg, 1, 'contains() methods with translation-time constant answers')
-
+    # ---------------------------------------------------------------- NULLTEXT
+    # the pure-Python stand-ins for SQLite's JSON1 functions hand a JSON null / a missing key back as SQL NULL, and scalars as scalars: only
+    # containers are re-serialised to text.  The guard in front of json.dumps(...) is evaluated on concrete sample values: true for [] {} [1] {'a': 1},
+    # false for None, 1, 1.5, 'a', True (json_extract(...) of the real extension behaves that way; `d.info['v'] is None` relies on it)
+    from ..q import concrete_eval, Unknown
+    SAMPLES = [(None, False), (1, False), (1.5, False), ('a', False), (True, False), ([], True), ({}, True), ([1], True), ({'a': 1}, True)]
+    nnt = 0
+    for qual in ('py_json_extract',):
+        f = repo.fn('pony.orm.dbproviders.sqlite', qual)
+        for st in walk_no_nested(f.node):
+            if not isinstance(st, ast.If): continue
+            dumped = [c for b in st.body for c in ast.walk(b) if isinstance(c, ast.Call) and dotted(c.func) in ('json.dumps', 'dumps') and c.args and isinstance(c.args[0], ast.Name)]
+            if not dumped: continue
+            var = dumped[0].args[0].id
+            nnt += 1
+            wrong = []
+            for v, want in SAMPLES:
+                try: got = bool(concrete_eval(st.test, {var: v}))
+                except Unknown: got = None
+                if got is not want: wrong.append('%r -> %s' % (v, 'serialised' if got else 'unreadable guard' if got is None else 'kept'))
+            ok = not wrong
+            ctx.ob('C29-NULLTEXT.only-containers-are-serialised-to-text', f, st, ok,
+                   '' if ok else '%s decides wrongly which results become JSON text: %s (a JSON null must stay SQL NULL: as the text \'null\' it is NOT NULL and casts to 0)' % (qual, '; '.join(wrong)),
+                   node=st, expected='if type(result) in (list, dict): result = json.dumps(result)')
+    ctx.floor('C29-NULLTEXT', nnt, 1, 'serialisation guards in the JSON1 stand-ins')
 
 
 def quote_class_reason(pattern, Q):
@@ -211,6 +235,8 @@ def quote_class_reason(pattern, Q):
 
 
 MUTANTS = [
+    dict(id='C29-nt', file='pony/orm/dbproviders/sqlite.py', fn='py_json_extract', old="    if type(result) in (list, dict):", new="    if type(result) not in (str, int, float):", expect='C29-NULLTEXT'),
+    dict(id='C29-nt2', file='pony/orm/dbproviders/sqlite.py', fn='py_json_extract', old="    if type(result) in (list, dict):", new="    if isinstance(result, (list, dict)):", expect='C29-NULLTEXT', benign=True),
     dict(id='C29-nc1', file='pony/orm/sqltranslation.py', fn='ArrayMixin.contains', old="                if not_in:\n                    return BoolExprMonad(['EQ', ['VALUE', 0], ['VALUE', 1]], nullable=False)\n                else:\n                    return BoolExprMonad(['EQ', ['VALUE', 1], ['VALUE', 1]], nullable=False)\n",
          new="                const = 0 if not_in else 1\n                return BoolExprMonad(['EQ', ['VALUE', const], ['VALUE', const]], nullable=False)\n", expect='C29-NEGCONST'),
     dict(id='C29-m1', file='pony/orm/sqlbuilding.py', fn='SQLBuilder.build_json_path', old="            paramkey = tuple(item.paramkey if isinstance(item, Param) else\n                             None if type(item.value) is slice else item.value\n                             for item in items)",
